@@ -962,8 +962,9 @@ def run(ctx):
     ]
     core.prove(ctx, PID, uses=[])
     rng = gen.rng_for(ctx.seed, PID)
-    # source drift (a new / removed in-place statement in the anchored files) is not a verdict: it deepens the search
-    boost = 3 if inventory_drift(ctx) else 1
+    # source drift (a new / removed in-place statement in the anchored files, against harness/c11_inplace_sites.json) is not a
+    # verdict: it is reported in the evidence and, in the thorough tier, deepens the search
+    boost = 3 if (inventory_drift(ctx) and not ctx.quick) else 1
     leg_a_cache(ctx, rng, 400 if ctx.quick else 6000)
     leg_a_alias(ctx, rng, (4 if ctx.quick else 100) * boost)
     leg_c_unchanged(ctx, rng, (60 if ctx.quick else 3000) * boost)
